@@ -111,7 +111,8 @@ func c01Run(rc *simrt.RunCtx, faults bool) {
 	if rc.Pick(4, "wl.writergaps") == 0 {
 		gapPm = 50
 	}
-	rc.Knob("app", fmt.Sprintf("readerlag=%d/%dms recvtimeout=%v writergaps=%d", lagPm, lagMax, recvTO, gapPm))
+	reuseBuf := rc.Pick(4, "wl.reuse-send-buffer") == 0
+	rc.Knob("app", fmt.Sprintf("readerlag=%d/%dms recvtimeout=%v writergaps=%d reusebuf=%v", lagPm, lagMax, recvTO, gapPm, reuseBuf))
 	rc.Sample("N=%d %v chunk=%d msgs c2s=%d s2c=%d faults=%v readerlag=%d/%dms recvtimeout=%v", n, tk, chunk, mA, mB, faults, lagPm, lagMax, recvTO)
 
 	done := make(chan string, 8)
@@ -124,10 +125,23 @@ func c01Run(rc *simrt.RunCtx, faults bool) {
 			if err != nil || c == nil {
 				return
 			}
+			var scratch []byte
 			for i, sz := range sizes {
-				if err := c.Send(mkMsg(dir, i, sz)); err != nil {
+				m := mkMsg(dir, i, sz)
+				if reuseBuf {
+					// one scratch buffer for all messages, overwritten
+					// as soon as Send has returned
+					scratch = append(scratch[:0], m...)
+					m = scratch
+				}
+				if err := c.Send(m); err != nil {
 					simrt.Note("%s Send(%d) error: %v", name, i, err)
 					return
+				}
+				if reuseBuf {
+					for k := range scratch {
+						scratch[k] = 0xEE
+					}
 				}
 				if gapPm > 0 && simrt.Pm(gapPm, "wl.wgap") {
 					time.Sleep(time.Duration(1+simrt.Choose(3000, "wl.wgaplen")) * time.Millisecond)
